@@ -88,7 +88,33 @@ def lake_build(targets):
     r = run(["lake", "build"] + targets, cwd=LEAN)
     out = r.stdout + r.stderr
     errs = [l for l in out.splitlines() if l.startswith("error:") or "error:" in l[:200]]
-    return {"ok": r.returncode == 0, "wall_s": round(time.time() - t0, 1), "errors": errs[:40], "log_tail": out[-4000:] if r.returncode else ""}
+    return {"ok": r.returncode == 0, "wall_s": round(time.time() - t0, 1), "errors": errs[:40], "log_tail": out[-4000:] if r.returncode else "",
+            "broken": broken_decls(errs)}
+
+
+def broken_decls(errs):
+    """name the declaration each Lean error falls into: 'NflVerif/Proofs/X.lean:12 (theorem foo_eq)'"""
+    out = []
+    for e in errs:
+        m = re.search(r"([\w./-]+\.lean):(\d+):\d+", e)
+        if not m:
+            continue
+        path, line = m.group(1), int(m.group(2))
+        full = path if os.path.isabs(path) else os.path.join(LEAN, path)
+        name = "?"
+        try:
+            src = open(full).read().splitlines()
+            for i in range(min(line, len(src)) - 1, -1, -1):
+                d = re.match(r"\s*(?:private\s+|protected\s+)?(theorem|lemma|def|example|instance)\s*([^\s:({\[]*)", src[i])
+                if d:
+                    name = (d.group(1) + " " + d.group(2)).strip()
+                    break
+        except Exception:
+            pass
+        item = "%s:%d (%s)" % (os.path.relpath(full, LEAN), line, name)
+        if item not in out:
+            out.append(item)
+    return out[:12]
 
 
 def registry():
@@ -179,6 +205,9 @@ def build_harness(name, backend, srcs=None, extra=None, libs=True, sanitize="add
         flags.append("-DCHECK_STRICTMOD")
     if sanitize:
         flags += ["-fsanitize=" + sanitize, "-fno-sanitize-recover=all", "-fno-omit-frame-pointer"]
+    if os.environ.get("VERIF_COVERAGE"):
+        # tools/coverage_report.py: which lines of /repo do the correspondence harnesses execute at all
+        flags += ["--coverage", "-fprofile-update=atomic"]
     inc = ["-I" + os.path.join(REPO, "include"), "-I" + os.path.join(REPO, "include", "nfl"),
            "-I" + os.path.join(REPO, "include", "nfl", "prng"), "-I" + HARNESS]
     libsrc = [os.path.join(REPO, "lib", "params", "params.cpp")] if with_params else []
